@@ -66,7 +66,8 @@ FEATURES = {
     'zero-trip': "DO loop that may execute zero times",
     'rank3': "3-D array",
     'mod-subscript': "mod(...) inside an array subscript",
-    'long-line': "statement longer than ~240 characters (PyCodegen wraps at 300 without continuation)",
+    'long-line': "statement whose estimated Python text exceeds ~230 characters (PyCodegen wraps at 300 without continuation; "
+                 ".eqv./.neqv. are expanded and double their operands)",
     'indirect': "array element used as subscript of another array (indirect addressing a(idx(i)))",
     'intmod-factor': "integer mod(...) as a non-leftmost factor of a product or as denominator",
     'section-loop-range': "section whose range equals the range of a step-less DO loop of the kernel "
@@ -417,6 +418,41 @@ def expr_of(g, env, typ, depth):
 
 
 # ------------------------------------------------------------------ statements
+def pylen(e):
+    """generous estimate of the length of the Python text of an expression (.eqv./.neqv. are expanded to
+    and/or/not forms that repeat both operands)"""
+    k = e[0]
+    if k == 'i':
+        return len(str(e[1]))
+    if k == 'r':
+        return len(e[1]) + 1
+    if k == 'l':
+        return 5
+    if k == 'v':
+        return len(e[1])
+    if k in ('e', 'sec'):
+        return len(e[1]) + 2 + sum((1 if x is None else pylen(x) + 4) + 2 for x in e[2])
+    if k == 'p':
+        return pylen(e[1]) + 2
+    if k == 'u':
+        return pylen(e[2]) + 6
+    if k == 'cast':
+        return pylen(e[1]) + 14
+    if k == 'f':
+        return len(e[1]) + 5 + sum(pylen(a) + 2 for a in e[2])
+    if k == 'b':
+        if e[1] in ('.eqv.', '.neqv.'):
+            return 2 * (pylen(e[2]) + pylen(e[3])) + 30
+        return pylen(e[2]) + pylen(e[3]) + 8
+    if k == 'rng':
+        return pylen(e[1]) + pylen(e[2]) + 1
+    raise ValueError(e)
+
+
+PY_EXPR_CAP = 180      # generator: longest estimated Python text of one expression unless 'long-line' is on
+PY_LINE_TAG = 230      # features_of: estimated Python statement length from which the case is tagged 'long-line'
+
+
 def gen_assign(g, env):
     targets = []
     for t in ('int', 'real', 'logical'):
@@ -434,8 +470,10 @@ def gen_assign(g, env):
     rhs = expr_of(g, env, t, d)
     if t == 'real' and g.chance(8):
         rhs = int_expr(g, env, d)        # real <- integer expression
-    if len(rexpr(rhs, 'real64')[0]) > 170 and not g.on('long-line'):
+    if pylen(rhs) > PY_EXPR_CAP and not g.on('long-line'):
         rhs = expr_of(g, env, t, 1)
+        if pylen(rhs) > PY_EXPR_CAP:
+            rhs = expr_of(g, env, t, 0)
     if k == 's':
         return ['assign', var(n), rhs]
     return ['assign', element(g, env, n, 1), rhs]
@@ -496,8 +534,10 @@ def gen_if(g, env, depth, nstmts):
     branches = []
     for _ in range(g.i(1, 3)):
         cond = log_expr(g, env, 2)
-        if len(rexpr(cond, 'real64')[0]) > 170 and not g.on('long-line'):
-            cond = log_expr(g, env, 0)
+        if pylen(cond) > PY_EXPR_CAP and not g.on('long-line'):
+            cond = log_expr(g, env, 1)
+            if pylen(cond) > PY_EXPR_CAP:
+                cond = log_expr(g, env, 0)
         branches.append([cond, gen_body(g, env, depth + 1, max(1, nstmts // 2))])
     els = gen_body(g, env, depth + 1, max(1, nstmts // 2)) if g.chance(50) else None
     return ['if', branches, els]
@@ -1141,8 +1181,11 @@ def features_of(case):
     for s in walk_stmts(kern['body']):
         if s[0] == 'assign' and section_ranges(s, dims) & ranges:
             feats.add('section-loop-range')
-    if any(len(ln) > 240 for ln in render(case).split('\n')):
-        feats.add('long-line')
+    for s in walk_stmts(kern['body']):
+        tops = stmt_exprs(s)
+        est = (sum(pylen(t) for t in tops[:2]) + 3) if s[0] == 'assign' else max([pylen(t) for t in tops] + [0]) + 6
+        if est + 10 > PY_LINE_TAG:
+            feats.add('long-line')
     for s in walk_stmts(kern['body']):
         if s[0] == 'assign':
             lt = type_of(s[1], vt)
